@@ -528,13 +528,31 @@ func genCfg(r *R) Cfg {
 	return c
 }
 
+// padOriginsTo pads the origin list of every configuration that has no "*" to n
+// patterns with the same filler origins (so that the configurations stay
+// comparable): size thresholds of the code under test apply to all of them.
+func padOriginsTo(cfgs []Cfg, n int) {
+	for ci := range cfgs {
+		star := len(cfgs[ci].Origins) == 0
+		for _, o := range cfgs[ci].Origins {
+			star = star || o == "*"
+		}
+		if star {
+			continue
+		}
+		for i := len(cfgs[ci].Origins); i < n; i++ {
+			cfgs[ci].Origins = append(cfgs[ci].Origins, fmt.Sprintf("https://pad-%04d.filler.test", i))
+		}
+	}
+}
+
 // withDict returns c with a few of its values replaced or extended by literals
 // of the tree under test: a host, port or scheme of one pattern, a method, a
 // request or response header name, max-age, status, a list padded to a mined
 // size.
 func withDict(r *R, c Cfg) (Cfg, bool) {
-	if len(dict.any) == 0 || !r.P(0.2) {
-		return c, false
+	if len(dict.any.all) == 0 || !r.P(0.2) && !(len(dict.any.novel)+len(dict.ports.novel) > 0 && r.P(0.15)) {
+		return c, false // (a tree with literals the pinned tree does not have gets more of this)
 	}
 	d := c.clone()
 	changed := false
@@ -549,16 +567,16 @@ func withDict(r *R, c Cfg) (Cfg, bool) {
 			if pp.Port != "" {
 				port = ":" + pp.Port
 			}
-			if h, ok := dictStr(r, dict.hosts, 0.3); ok {
+			if h, ok := dict.hosts.pick(r, 0.3); ok {
 				host = h
 				if r.P(0.2) && !isIPHost(h) {
 					host = "*." + h
 				}
 			}
-			if n, ok := dictInt(r, dict.ports, 0.4); ok {
+			if n, ok := dict.ports.pick(r, 0.4); ok {
 				port = fmt.Sprintf(":%d", n)
 			}
-			if sch, ok := dictStr(r, dict.schemes, 0.15); ok {
+			if sch, ok := dict.schemes.pick(r, 0.15); ok {
 				scheme = sch
 			}
 			if !(scheme == "https" && port == ":443" || scheme == "http" && port == ":80") {
@@ -576,11 +594,36 @@ func withDict(r *R, c Cfg) (Cfg, bool) {
 				}
 			}
 		}
-		if o, ok := dictStr(r, dict.origins, 0.1); ok && len(o) > 3 {
+		if len(dict.schemes.novel)+len(dict.hosts.novel)+len(dict.ports.novel) > 0 && r.P(0.5) {
+			// compose an origin from what is NEW in the tree under test: scheme x host x port
+			scheme := pick(r, []string{"https", "http"})
+			if len(dict.schemes.novel) > 0 && r.P(0.7) {
+				scheme = pick(r, dict.schemes.novel)
+			}
+			host := pick(r, vocabDomains[:12])
+			if h, ok := dict.hosts.pick(r, 0.7); ok {
+				host = h
+			}
+			if r.P(0.2) && !isIPHost(host) {
+				host = pick(r, []string{"*.", "sub."}) + host
+			}
+			port := ""
+			if n, ok := dict.ports.pick(r, 0.4); ok {
+				port = fmt.Sprintf(":%d", n)
+			}
+			if !(scheme == "https" && port == ":443" || scheme == "http" && port == ":80") {
+				if scheme != "https" && restricted && !isLoopbackish(strings.TrimPrefix(strings.TrimPrefix(host, "*."), "sub.")) {
+					d.TolInsecure = true
+				}
+				d.Origins = insertAt(d.Origins, r.Intn(8), scheme+"://"+host+port)
+				changed = true
+			}
+		}
+		if o, ok := dict.origins.pick(r, 0.1); ok && len(o) > 3 {
 			d.Origins = insertAt(d.Origins, r.Intn(8), o)
 			changed = true
 		}
-		if n, ok := dictInt(r, dict.sizes, 0.1); ok && n <= 80 && !restricted {
+		if n, ok := dict.sizes.pick(r, 0.1); ok && (n <= 80 || r.P(0.25)) && !restricted {
 			for len(d.Origins) < n {
 				d.Origins = append(d.Origins, "https://"+randDomain(r))
 				changed = true
@@ -595,34 +638,34 @@ func withDict(r *R, c Cfg) (Cfg, bool) {
 		}
 		return false
 	}
-	if t, ok := dictStr(r, dict.tokens, 0.25); ok && !(len(d.Methods) == 1 && d.Methods[0] == "*") {
+	if t, ok := dict.tokens.pick(r, 0.25); ok && !(len(d.Methods) == 1 && d.Methods[0] == "*") {
 		d.Methods = insertAt(d.Methods, r.Intn(8), t)
 		changed = true
 	}
-	if t, ok := dictStr(r, dict.tokens, 0.3); ok {
+	if t, ok := dict.tokens.pick(r, 0.3); ok {
 		d.RequestHeaders = insertAt(d.RequestHeaders, r.Intn(8), t)
 		changed = true
 	}
-	if t, ok := dictStr(r, dict.tokens, 0.25); ok && !hasStar(d.ResponseHeaders) {
+	if t, ok := dict.tokens.pick(r, 0.25); ok && !hasStar(d.ResponseHeaders) {
 		d.ResponseHeaders = insertAt(d.ResponseHeaders, r.Intn(8), t)
 		changed = true
 	}
-	if n, ok := dictInt(r, dict.sizes, 0.1); ok && !hasStar(d.RequestHeaders) {
+	if n, ok := dict.sizes.pick(r, 0.1); ok && !hasStar(d.RequestHeaders) {
 		for i := 0; len(d.RequestHeaders) < n; i++ {
 			d.RequestHeaders = append(d.RequestHeaders, fmt.Sprintf("x-pad-%03d", i))
 			changed = true
 		}
 	}
-	if n, ok := dictInt(r, dict.sizes, 0.1); ok && !hasStar(d.ResponseHeaders) && len(d.ResponseHeaders) > 0 {
+	if n, ok := dict.sizes.pick(r, 0.1); ok && !hasStar(d.ResponseHeaders) && len(d.ResponseHeaders) > 0 {
 		for i := 0; len(d.ResponseHeaders) < n; i++ {
 			d.ResponseHeaders = append(d.ResponseHeaders, fmt.Sprintf("X-Pad-%03d", i))
 			changed = true
 		}
 	}
-	if n, ok := dictInt(r, dict.maxAge, 0.25); ok {
+	if n, ok := dict.maxAge.pick(r, 0.25); ok {
 		d.MaxAge, changed = n, true
 	}
-	if n, ok := dictInt(r, dict.status, 0.25); ok {
+	if n, ok := dict.status.pick(r, 0.25); ok {
 		d.Status, changed = n, true
 	}
 	return d, changed
@@ -771,7 +814,18 @@ func originsFor(c Cfg) (match, miss []string) {
 			miss = append(miss, s)
 		}
 	}
-	for _, p := range c.Origins {
+	pats := c.Origins
+	if len(pats) > 48 {
+		// a very long list: probes from its first 16, its last 8 and 16 evenly spaced patterns
+		// (every pattern still takes part in deciding what matches)
+		var sel []string
+		sel = append(sel, pats[:16]...)
+		for i := 0; i < 16; i++ {
+			sel = append(sel, pats[16+i*(len(pats)-24)/16])
+		}
+		pats = append(sel, pats[len(pats)-8:]...)
+	}
+	for _, p := range pats {
 		if p == "*" {
 			addM("https://anything.test")
 			continue
